@@ -15,6 +15,7 @@ import (
 	"sort"
 	"strings"
 	"sync"
+	"sync/atomic"
 	"testing"
 	"time"
 
@@ -41,6 +42,10 @@ type schedKnobs struct {
 	SchedSeed  uint64 `json:"sched_seed"`
 	PCTChanges int    `json:"pct_changes"`
 	// explicit PCT parameters (targeted plans): steps at which the running task is demoted, initial priorities per task
+	// Procs: runtime.GOMAXPROCS while the server is created and the requests run (part of the environment the code must not depend on; 0: unchanged)
+	Procs int `json:"gomaxprocs,omitempty"`
+	// Aliases (server mode): the store holds two more service names carrying sp1's entity ID before the tasks start
+	Aliases  bool  `json:"service_aliases,omitempty"`
 	ChangeAt []int `json:"pct_change_at,omitempty"`
 	Prio     []int `json:"pct_priorities,omitempty"`
 }
@@ -142,6 +147,9 @@ func genSched(g *Rng, tier string) *Plan {
 		}
 		return p
 	}
+	k.Aliases = g.Bool(0.3)
+	k.Procs = Pick(g, 0, 0, 1, 1, 2)
+	p.Knobs = mustJSON(k)
 	n := 2 + g.PickW(4, 3, 2)
 	for i := 0; i < n; i++ {
 		// bias towards handlers that touch the registry lock and the store together
@@ -177,21 +185,24 @@ type sTask struct {
 	held      []heldLock
 	panicked  any
 	prio      int
+	goid      int64
 }
 
 type sched struct {
-	tasks   []*sTask
-	back    chan struct{}
-	cur     *sTask
-	steps   int
-	picks   []int       // recorded decisions
-	replay  []int       // explicit schedule (replay mode)
-	rng     *mrand.Rand // derived from the plan's sched_seed (generation mode)
-	pct     bool
-	changes map[int]bool
-	trace   []string
-	seq     int64 // global event sequence number (store histories)
-	limit   int
+	tasks        []*sTask
+	back         chan struct{}
+	cur          *sTask
+	steps        int
+	picks        []int       // recorded decisions
+	replay       []int       // explicit schedule (replay mode)
+	rng          *mrand.Rand // derived from the plan's sched_seed (generation mode)
+	pct          bool
+	changes      map[int]bool
+	trace        []string
+	seq          int64 // global event sequence number (store histories)
+	limit        int
+	progress     int64 // scheduling steps taken (read by run's watchdog goroutine)
+	foreignCalls int   // hook calls made by goroutines the code under test started itself
 }
 
 //go:norace
@@ -242,6 +253,9 @@ func setActiveSched(s *sched) { activeSched = s }
 //go:norace
 func (hookDispatch) Acquire(m *simsync.RWMutex, write bool) {
 	if s := activeSched; s != nil {
+		if s.foreign() {
+			return // the real lock underneath still excludes
+		}
 		s.Acquire(m, write)
 		return
 	}
@@ -255,6 +269,9 @@ func (hookDispatch) Acquire(m *simsync.RWMutex, write bool) {
 //go:norace
 func (hookDispatch) Release(m *simsync.RWMutex, write bool) {
 	if s := activeSched; s != nil {
+		if s.foreign() {
+			return
+		}
 		s.Release(m, write)
 		return
 	}
@@ -336,7 +353,7 @@ func (s *sched) Release(m *simsync.RWMutex, write bool) {
 //go:norace
 func (s *sched) yield(label string) {
 	t := s.cur
-	if t == nil {
+	if t == nil || s.foreign() {
 		return
 	}
 	s.trace = append(s.trace, t.name+":"+label)
@@ -352,11 +369,44 @@ func (s *sched) spawn(name string, f func()) {
 	s.tasks = append(s.tasks, t)
 	go func() {
 		raceDisable()
+		t.goid = curGoid()
 		<-t.wake
 		raceEnable()
 		t.setPanicked(guard(f))
 		s.finish(t)
 	}()
+}
+
+// curGoid is the calling goroutine's number (from the header line of its stack trace).
+//
+//go:norace
+func curGoid() int64 {
+	var buf [64]byte
+	n := runtime.Stack(buf[:], false)
+	var id int64
+	for _, c := range buf[len("goroutine "):n] {
+		if c < '0' || c > '9' {
+			break
+		}
+		id = id*10 + int64(c-'0')
+	}
+	return id
+}
+
+// foreign reports whether the caller is a goroutine the code under test started itself: such a goroutine is not one of the
+// scheduler's tasks; its lock and store operations go straight to the real primitives (the race detector still sees them), the
+// run is marked (Extra foreign_goroutine_calls) and its schedule is no longer fully the scheduler's.
+//
+//go:norace
+func (s *sched) foreign() bool {
+	if s.cur != nil && s.cur.goid == curGoid() {
+		return false
+	}
+	if s.cur == nil {
+		return false // setup / teardown on the harness goroutine
+	}
+	s.foreignCalls++
+	return true
 }
 
 //go:norace
@@ -409,7 +459,12 @@ func (s *sched) choose(runnable []*sTask) *sTask {
 // step limit must only ever be reached by a task that cannot finish under a fair schedule either).
 const fairAfter = 4000
 
+// stuckAfter: how long a task may run between two decision points before it counts as blocked for good (the longest legitimate
+// stretch is one bcrypt comparison, some tens of milliseconds).
+const stuckAfter = 20 * time.Second
+
 type schedOutcome struct {
+	stuck    string   // name of a task blocked outside the scheduler's model
 	deadlock []string // descriptors of the cycle's tasks (nil: none)
 	victims  int
 	livelock bool
@@ -419,8 +474,33 @@ type schedOutcome struct {
 //
 //go:norace
 func (s *sched) run() schedOutcome {
+	// a plain goroutine watches the step counter (no timer channel: the race runtime must not be asked about one); it is started
+	// before synchronisation events are switched off so that its creation orders it after everything set up so far
+	stuck, done := make(chan struct{}), make(chan struct{})
+	progress := &s.progress
+	go func() {
+		seen, idle := int64(-1), time.Duration(0)
+		for idle < stuckAfter {
+			time.Sleep(250 * time.Millisecond)
+			select {
+			case <-done:
+				return
+			default:
+			}
+			if cur := atomic.LoadInt64(progress); cur != seen {
+				seen, idle = cur, 0
+			} else {
+				idle += 250 * time.Millisecond
+			}
+		}
+		select {
+		case stuck <- struct{}{}:
+		case <-done:
+		}
+	}()
 	raceDisable()
 	defer raceEnable()
+	defer close(done)
 	var last *sTask
 	for {
 		var runnable []*sTask
@@ -483,8 +563,15 @@ func (s *sched) run() schedOutcome {
 		s.steps++
 		s.cur = t
 		last = t
+		atomic.AddInt64(&s.progress, 1)
 		t.wake <- struct{}{}
-		<-s.back
+		select {
+		case <-s.back:
+		case <-stuck:
+			// the task neither finished nor reached a decision point: it waits for something no other request will ever provide
+			// (wall-clock bound; only ever reached by a run that has stopped making progress)
+			return schedOutcome{stuck: t.name}
+		}
 		s.cur = nil
 	}
 }
@@ -631,6 +718,9 @@ func execSched(t *testing.T, p *Plan) *Result {
 			s.changes[c] = true
 		}
 	}
+	if k.Procs > 0 {
+		defer runtime.GOMAXPROCS(runtime.GOMAXPROCS(k.Procs))
+	}
 	rl := newRaceLog()
 	rl.newReports() // discard anything older than this run
 
@@ -655,6 +745,10 @@ func execSched(t *testing.T, p *Plan) *Result {
 	res.Schedule = append([]int(nil), s.picks...)
 	res.Log = append(res.Log, s.trace...)
 	res.Extra["sched_steps"] += s.steps
+	if s.foreignCalls > 0 {
+		res.Extra["foreign_goroutine_calls"] += s.foreignCalls
+		res.probe("code-under-test-started-goroutines")
+	}
 	res.Nontrivial = s.steps > len(s.tasks)+1 // some task was pre-empted at least once
 
 	switch {
@@ -664,6 +758,10 @@ func execSched(t *testing.T, p *Plan) *Result {
 		res.violate(len(s.picks), "deadlock", "C20/deadlock/"+strings.Join(outcome.deadlock, "||"), "every request completes",
 			fmt.Sprintf("%d task(s) blocked forever", len(outcome.deadlock)+outcome.victims), strings.Join(outcome.deadlock, " || "))
 		// the blocked goroutines are abandoned (they hold no real locks: the model never granted)
+		return res
+	case outcome.stuck != "":
+		res.logf("STUCK %s", outcome.stuck)
+		res.violate(len(s.picks), "no-progress", "C20/no-progress/blocked/"+taskKind(outcome.stuck), "every request completes", "blocked for good outside any lock (channel, wait group, ...)", fmt.Sprintf("gomaxprocs=%d", k.Procs))
 		return res
 	case outcome.livelock:
 		res.violate(len(s.picks), "no-progress", "C20/no-progress", "every request completes within the step bound", "step limit reached", "")
@@ -722,6 +820,13 @@ func setupServerMode(p *Plan, s *sched, res *Result) func() {
 	md2 := spMetadataXML("https://sp2.example.com")
 	if r := deliver(srv, "PUT", "https://idp.example.com/services/sp1", string(md1), "", nil); r.Code != 204 {
 		panic(fmt.Sprintf("setup: put service: %d", r.Code))
+	}
+	if decode[schedKnobs](p.Knobs).Aliases {
+		for _, name := range []string{"sp1b", "sp1c"} {
+			if r := deliver(srv, "PUT", "https://idp.example.com/services/"+name, string(md1), "", nil); r.Code != 204 {
+				panic(fmt.Sprintf("setup: put service alias: %d", r.Code))
+			}
+		}
 	}
 	_ = inner.Put("/users/alice", samlidp.User{Name: "alice", Email: "alice@example.com", HashedPassword: cost4Hash})
 	_ = inner.Put("/users/bob", samlidp.User{Name: "bob", Email: "bob@example.com", HashedPassword: cost4Hash})
@@ -825,6 +930,25 @@ func setupServerMode(p *Plan, s *sched, res *Result) func() {
 			if r.code < 100 || r.code > 599 {
 				res.violate(i, "no-reply", "C20/no-reply/"+tk.Kind, "exactly one well-formed reply", fmt.Sprint(r.code), "")
 			}
+		}
+		// every request has completed: whatever order the management calls took effect in, the running server and a server
+		// re-created over the same store register the same providers (no sequential order of the calls leaves them apart)
+		if res.Violation == nil {
+			fresh, err := samlidp.New(samlidp.Options{URL: mustURL("https://idp.example.com"), Key: rsaKeys[0].Key, Certificate: rsaKeys[0].Cert, Store: inner, Logger: nullLog{}})
+			if err != nil {
+				panic(err)
+			}
+			for _, id := range []string{"https://sp1.example.com/saml/metadata", "https://sp2.example.com/saml/metadata"} {
+				live, e1 := srv.GetServiceProvider(nil, id)
+				again, e2 := fresh.GetServiceProvider(nil, id)
+				if (e1 == nil) != (e2 == nil) || (e1 == nil && e2 == nil && (live == nil) != (again == nil)) {
+					res.logf("registry: %s live=%v restarted=%v", id, e1 == nil, e2 == nil)
+					res.violate(len(p.Steps), "registry-diverges-from-store", "C20/registry-diverges-from-store", "after all requests completed the running server registers what the store holds",
+						fmt.Sprintf("%s: running server registered=%v, server re-created over the store registered=%v", id, e1 == nil, e2 == nil), "")
+					return
+				}
+			}
+			res.Extra["registry_store_agreement_checked"]++
 		}
 	}
 }
@@ -996,7 +1120,7 @@ func init() {
 	simsync.H = hookDispatch{}
 	register(&Profile{
 		ID: "C20", Name: "sched", Level: "exploration", NoBubble: true,
-		Rule: "each run: 2-4 concurrent tasks, each one HTTP request drawn from every samlidp.Server handler (server mode, 80%) or 2-4 clients x <=6 Get/Put/Delete/List operations on MemoryStore (store mode, 25%; a third of those: keys of several collections already present, one client changing them in a fixed order while others list a prefix spanning the collections, PCT with an explicit change point inside the listing), interleaved by a seeded cooperative scheduler (uniform random walk or PCT priorities with 1-3 change points; round-robin after step 4000 so that the step limit is only reached by a task that cannot finish under a fair schedule) at every lock acquisition and every typed sync/atomic operation (scheduler-aware RWMutex model and atomic wrappers in a rewritten scratch copy) and every store-operation boundary; oracles: deadlock/no-progress, Go race detector under the controlled schedule, porcupine linearizability of store histories, one reply and no panic per request; non-trivial = at least one task was pre-empted; distinct = distinct abstract trace (task kinds, lock/store events in schedule order, reply codes)",
+		Rule: "each run: 2-4 concurrent tasks, each one HTTP request drawn from every samlidp.Server handler (server mode, 80%) or 2-4 clients x <=6 Get/Put/Delete/List operations on MemoryStore (store mode, 25%; a third of those: keys of several collections already present, one client changing them in a fixed order while others list a prefix spanning the collections, PCT with an explicit change point inside the listing), interleaved by a seeded cooperative scheduler (uniform random walk or PCT priorities with 1-3 change points; round-robin after step 4000 so that the step limit is only reached by a task that cannot finish under a fair schedule) at every lock acquisition and every typed sync/atomic operation (scheduler-aware RWMutex model and atomic wrappers in a rewritten scratch copy) and every store-operation boundary; oracles: deadlock/no-progress, Go race detector under the controlled schedule, porcupine linearizability of store histories, one reply and no panic per request; non-trivial = at least one task was pre-empted; distinct = distinct abstract trace (task kinds, lock/store events in schedule order, reply codes); the process's GOMAXPROCS is 1, 2 or unchanged per run; a task that neither finishes nor reaches a decision point for 20 s of wall-clock time is blocked for good (violation no-progress/blocked); goroutines the code under test starts itself are not tasks (their lock and store operations go straight to the real primitives, Extra foreign_goroutine_calls) but stay under the race detector; in 30% of server runs two more service names carry sp1's entity ID; after all requests completed the running server must register exactly what a server re-created over the same store registers",
 		Gen:  genSched, Exec: execSched, Simplify: simplifySched,
 		RunsQuick: 3000, RunsThorough: 300000,
 		Assumptions: []string{"lock model from the sync documentation: a writer that has called Lock blocks later RLock calls until it has acquired and released", "granularity: lock acquisitions and store operations; code between two such points runs atomically in the simulation (the race detector still sees unsynchronised accesses across tasks)", "porcupine Unknown (30 s) is inconclusive and never reported"},
